@@ -163,3 +163,23 @@ claim("C10", "proof",
       "engineexport_run, Gillespie runs whose t_max is never reached, completion after exactly ceil(t_max/dt) steps (induction L7).",
       "deductive: typestate + Iterate contracts + loop variants on clang AST, symbolic wrapper run; concrete isolation scenario",
       "DESIGN.md 3/C10")
+
+claim("C14", "proof",
+      "Engine side on the real C++ (clang AST interpreter): SpeciesFirstToMeshFirstArray<double|int> writes out[cell*S+species] = "
+      "in[species*M+cell] and MkVec copies entry-wise (Skolem pointwise invariants = every entry); engineexport_initialize_grid/"
+      "_graph, per processing mode x engine kind, hand to Init the transposed state unchanged ('none', 'auto'+euler), "
+      "GenerateStochasticDistribution(transposed state, M, S, script seed) ('redist', 'auto'+stochastic), or, in Poisson mode, "
+      "entries whose draw mean is the real amount of the same (cell, species) entry, zero staying zero (checked at every store "
+      "of the processing loop), together with the transposed chemostat map and the seed; an unknown mode is refused with code 4. "
+      "GenerateStochasticDistribution: every stored entry is a non-negative integer and is zero where the real amount is zero "
+      "(entry invariant checked at every store, incl. the +1 of the correction loop, which needs target >= cumul), and the "
+      "species total of the result equals floor(real total): accumulation loops against the recursive column-sum ghost, "
+      "the correction loop by the invariant total = tot2 -+ delta_count with a column-sum point-update lemma instance at "
+      "every store. Concrete battery on the engine built from the working tree (ASan+UBSan): layout scenario x 4 modes x engines "
+      "x space types.",
+      "Termination of the correction loop is not proved: it has no variant (known finding shared with C10/C11, sub-molecule "
+      "totals hang). Lemma L-sum (point update of a column sum) is assumed, the column-sum unfolding is definitional. A2: "
+      "poisson_distribution<int> returns a non-negative int. Draw independence/distribution is a library assumption. The Python "
+      "side (mode validation, mode and seed marshalling) is C20/C04. Fixed by this round: Poisson/floor modes did not transpose.",
+      "deductive: symbolic interpretation of clang AST with loop invariants, entry invariants and ghost column sums + SMT; sanitizer replay battery",
+      "DESIGN.md 3/C14")
